@@ -17,7 +17,7 @@
                       start had returned before the stop has reported, later callbacks carry
                       NNG_ESTOPPED; after nng_aio_free returns nothing happens on the aio
 -/
-import NngModel.Generated.Consts
+import NngModel.Generated.C02
 namespace Nng.AioSpec
 
 def ETIMEDOUT : Nat := Nng.Generated.aioEtimedout
